@@ -503,37 +503,79 @@ func c09RevisionOrder(w *World, r *Report) {
 func c09CheckCardinality(w *World, r *Report) {
 	m := w.Method("parse", "node", "checkCardinality")
 	fd, p := w.FuncDecl(m)
-	// skip set: first if statement
+	_ = p
+	// skip set: for which node types the function answers nil before it has counted anything
 	names, _ := nodeTypeNames(w)
 	skip := map[string]bool{}
 	isDev := w.Method("parse", "NodeType", "IsDeviateNode")
-	if is, ok := fd.Body.List[0].(*ast.IfStmt); ok && len(returnsIn(is.Body)) == 1 {
-		var walk func(e ast.Expr)
-		walk = func(e ast.Expr) {
-			e = ast.Unparen(e)
-			switch x := e.(type) {
-			case *ast.BinaryExpr:
-				if x.Op == token.LOR {
-					walk(x.X)
-					walk(x.Y)
-				} else if x.Op == token.EQL {
-					if v, ok := ConstInt(p, x.Y); ok {
-						skip[names[v]] = true
-					}
-				} else {
-					skip["?"+types.ExprString(x)] = true
-				}
-			case *ast.CallExpr:
-				if calleeOf(p, x) == isDev {
-					skip["deviate*"] = true
-				} else {
-					skip["?"+types.ExprString(x)] = true
-				}
-			default:
-				skip["?"+types.ExprString(e)] = true
+	if f := w.SSAFunc(m); f != nil {
+		sym := NewSym(w)
+		sym.Expand = false
+		pe0 := NewPredEval(w, intDom{})
+		pe0.Subject = func(pp *packagesPackage, fdd *ast.FuncDecl, e ast.Expr) bool {
+			return fdd.Recv != nil && len(fdd.Recv.List[0].Names) == 1 && objOfIdent(pp, e) == pp.TypesInfo.Defs[fdd.Recv.List[0].Names[0]]
+		}
+		devSet0 := pe0.TrueSet(isDev).(ISet)
+		var firstLoop *ssa.BasicBlock
+		for _, l := range ssaLoops(f) {
+			if firstLoop == nil || l.Header.Index < firstLoop.Index {
+				firstLoop = l.Header
 			}
 		}
-		walk(is.Cond)
+		early := pcZ
+		for _, b := range f.Blocks {
+			ret, ok := b.Instrs[len(b.Instrs)-1].(*ssa.Return)
+			if !ok || len(ret.Results) != 1 || !isNilConst(ret.Results[0]) {
+				continue
+			}
+			if firstLoop != nil && firstLoop.Dominates(b) {
+				continue
+			}
+			early = pcOrF(early, sym.PathCond(f.Blocks[0], b, nil))
+		}
+		isTypeCall := func(v ssa.Value) bool {
+			c, ok := v.(*ssa.Call)
+			if !ok {
+				return false
+			}
+			n := ""
+			if c.Call.IsInvoke() {
+				n = c.Call.Method.Name()
+			} else if sc := c.Call.StaticCallee(); sc != nil {
+				n = nm(sc)
+			}
+			return n == "Type"
+		}
+		for v, name := range names {
+			got, ok, und := pcEvalUnder(early, func(a *pcAtom) (bool, bool) {
+				if bo, ok := a.v.(*ssa.BinOp); ok && a.subj != "" && (isTypeCall(bo.X) || isTypeCall(bo.Y)) {
+					return a.set.contains(v), true
+				}
+				if c, ok := a.v.(*ssa.Call); ok {
+					cn := ""
+					if c.Call.IsInvoke() {
+						cn = c.Call.Method.Name()
+					} else if sc := c.Call.StaticCallee(); sc != nil {
+						cn = nm(sc)
+					}
+					if cn == "IsDeviateNode" {
+						return devSet0.contains(v), true
+					}
+				}
+				return false, false
+			})
+			if !ok {
+				skip["?"+und] = true
+				continue
+			}
+			if got {
+				if devSet0.contains(v) {
+					skip["deviate*"] = true
+				} else {
+					skip[name] = true
+				}
+			}
+		}
 	}
 	var sk []string
 	for k := range skip {
